@@ -19,7 +19,23 @@
         correspondence and the theorems about the gateway use [true], the
         variant [false] is kept to keep the need for the check machine-checked
         (Property.v: C08_disk_atomic_without_name_check_refuted);
-     f  a request with the wrong HTTP method is answered 405 and NOT processed.
+     f  a request with the wrong HTTP method is answered 405 and NOT processed;
+     j  Restore first removes the files that did not exist at backup time and
+        then writes the backed-up contents back (fix-F-C08j; it used to write
+        first).  A file of the rejected payload can stand where a backed-up
+        file needs a directory (payload name "sub" over the emptied directory
+        of "sub/q3.yaml"), or lie inside a directory that stands where a
+        backed-up file was ("q1.yaml/x.yaml"): writing first fails there.  The
+        switch [sf : bool] ("strays first") of [restore] / [rollback] /
+        [update] / [run] selects the order; the gateway is [true], [false] is
+        kept for Property.v: C08_restore_writing_first_refuted.
+
+   Paths are flat tokens; the tree structure of the file system is an input:
+   [under p q] = q lies below p taken as a directory (p is a proper prefix of
+   q).  os.MkdirAll fails when a regular file stands where a directory is
+   needed ([file_above]), os.Create fails on a directory that holds files
+   ([is_dir]); os.Remove of an empty directory succeeds and is not visible
+   (directories are not part of the modelled disk).
 
    Disk     = association list path -> content, read with [lookup]
               (first match), compared extensionally.
@@ -46,7 +62,11 @@
       fault       : option nat   (hook index),
       (hs, hint)  : list path * list path  (paths of the observed hook calls, in
                     order: those made before Restore was first called, all),
-      (status is 200, disk after, distinct engine views in order of appearance))
+      (status is 200, disk after, distinct engine views in order of appearance),
+      spans       : list (engine published between the two phases, view of the
+                    request phase, view of the response phase) -- the distinct
+                    observations of the two-phase probe transactions,
+      tree        : list (p, q) -- q lies below p, for the paths of this case)
      path = (area code, interned relative name), content = interned bytes. *)
 From Coq Require Import List NArith Bool Arith.
 Import ListNotations.
@@ -119,6 +139,13 @@ Fixpoint arrange {A : Type} (key : A -> path) (hint : list path) (items : list A
       ++ arrange key h (filter (fun x => negb (path_eqb p (key x))) items)
   end.
 
+(* all pairs (x, y) of a list with y at or after x *)
+Fixpoint spans {A : Type} (l : list A) : list (A * A) :=
+  match l with
+  | [] => []
+  | a :: r => map (pair a) (a :: r) ++ spans r
+  end.
+
 Section Model.
   Variable B : Type.                 (* file contents *)
   Variable D : Type.                 (* digests *)
@@ -126,6 +153,8 @@ Section Model.
   Variable D_eqb : D -> D -> bool.
   Variable empty : B.                (* content of a file just created *)
   Variable garbage : B.              (* what a failing write leaves behind *)
+  (* the tree structure of the paths: q lies below p taken as a directory *)
+  Variable under : path -> path -> bool.
 
   Definition disk := list (path * B).
 
@@ -172,36 +201,51 @@ Section Model.
     eng : engine;            (* rd.stream *)
     flt : fault;             (* what is left of the fault oracle *)
     seen : list engine;      (* engine met by a transaction arriving at each step so far, latest first *)
-    hk : nat                 (* hook-bearing steps so far (index into the order hints) *)
+    hk : nat;                (* hook-bearing steps so far (index into the order hints) *)
+    ep : nat;                (* how many times rd.setStream has published an engine so far *)
+    eps : list nat           (* [ep] at each arrival recorded in [seen] (same length, same order) *)
   }.
 
   Definition with_disk (f : disk -> disk) (s : st) : st :=
-    {| dsk := f (dsk s); eng := eng s; flt := flt s; seen := seen s; hk := hk s |}.
+    {| dsk := f (dsk s); eng := eng s; flt := flt s; seen := seen s; hk := hk s;
+       ep := ep s; eps := eps s |}.
+  (* rd.setStream(e): one more publication *)
   Definition with_eng (e : engine) (s : st) : st :=
-    {| dsk := dsk s; eng := e; flt := flt s; seen := seen s; hk := hk s |}.
+    {| dsk := dsk s; eng := e; flt := flt s; seen := seen s; hk := hk s;
+       ep := S (ep s); eps := eps s |}.
   Definition observe (s : st) : st :=
-    {| dsk := dsk s; eng := eng s; flt := flt s; seen := eng s :: seen s; hk := hk s |}.
+    {| dsk := dsk s; eng := eng s; flt := flt s; seen := eng s :: seen s; hk := hk s;
+       ep := ep s; eps := ep s :: eps s |}.
 
   (* a primitive step: an arrival point, and a point where the oracle may strike *)
   Definition prim (hook : bool) (s : st) : bool * st :=
     let '(fired, f') := tick hook (flt s) in
     (fired, {| dsk := dsk s; eng := eng s; flt := f'; seen := eng s :: seen s;
-               hk := if hook then S (hk s) else hk s |}).
+               hk := if hook then S (hk s) else hk s;
+               ep := ep s; eps := ep s :: eps s |}).
 
   (* cleanUpFile (hook = true) / a bare os.Remove (hook = false) *)
   Definition p_remove (hook : bool) (p : path) (s : st) : bool * st :=
     let '(fired, s1) := prim hook s in
     if fired then (false, s1) else (true, with_disk (del p) s1).
 
+  (* p is a directory that holds files *)
+  Definition is_dir (p : path) (d : disk) : bool :=
+    existsb (fun e => negb (path_eqb p (fst e)) && under p (fst e)) d.
+  (* a regular file stands where p needs a directory *)
+  Definition file_above (p : path) (d : disk) : bool :=
+    existsb (fun e => negb (path_eqb p (fst e)) && under (fst e) p) d.
+
   (* storeFileOnDisk *)
   Definition store (p : path) (c : B) (s : st) : bool * st :=
     let '(f0, s0) := prim true s in              (* the call itself (verifhook fs.store) *)
     if f0 then (false, s0) else
-    let '(_, s1) := p_remove true p s0 in        (* _ = cleanUpFile(p): its error is ignored *)
-    let '(f2, s2) := prim false s1 in            (* os.MkdirAll *)
-    if f2 then (false, s2) else
-    let '(f3, s3) := prim false s2 in            (* os.Create: truncates *)
-    if f3 then (false, s3) else
+    let '(_, s1) := p_remove true p s0 in        (* _ = cleanUpFile(p): its error is ignored
+                                                    (os.Remove fails on a directory that holds files) *)
+    let '(f2, s2) := prim false s1 in            (* os.MkdirAll: ENOTDIR when a file is in the way *)
+    if f2 || file_above p (dsk s2) then (false, s2) else
+    let '(f3, s3) := prim false s2 in            (* os.Create: truncates; EISDIR on a directory *)
+    if f3 || is_dir p (dsk s3) then (false, s3) else
     let '(f4, s4) := prim false (with_disk (set p empty) s3) in   (* file.Write *)
     if f4 then (false, with_disk (set p garbage) s4)
     else (true, with_disk (set p c) s4).
@@ -222,18 +266,25 @@ Section Model.
         if ok then remove_all hook r s1 else (false, s1)
     end.
 
-  (* Restore (fixed): the files whose backed-up digest differs from the current
-     one (or that are gone) are written back, then the files that did not exist
-     at backup time are removed; the first error aborts *)
-  Definition restore (hint : list path) (bk : disk) (s : st) : bool * st :=
+  (* Restore (fixed): the files that did not exist at backup time are removed,
+     then the files whose backed-up digest differs from the current one (or
+     that are gone) are written back ([sf = true]: fix-F-C08j; [sf = false]:
+     the other way round, as it was); both lists are computed from one scan of
+     the disk taken first; the first error aborts *)
+  Definition restore (sf : bool) (hint : list path) (bk : disk) (s : st) : bool * st :=
     let '(f, s1) := prim false s in              (* createFileSystemBackUp: reads *)
     if f then (false, s1) else
     let cur := snapshot (dsk s1) in
     let todo := filter (fun e => negb (same_digest (lookup (fst e) cur) (snd e))) bk in
     let strays := filter (fun e => negb (has_key (fst e) bk)) cur in
-    let '(ok, s2) := store_all (arrange fst (skipn (hk s1) hint) todo) s1 in
-    if ok then remove_all true (arrange (fun p => p) (skipn (hk s2) hint) (map fst strays)) s2
-    else (false, s2).
+    if sf then
+      let '(ok, s2) := remove_all true (arrange (fun p => p) (skipn (hk s1) hint) (map fst strays)) s1 in
+      if ok then store_all (arrange fst (skipn (hk s2) hint) todo) s2
+      else (false, s2)
+    else
+      let '(ok, s2) := store_all (arrange fst (skipn (hk s1) hint) todo) s1 in
+      if ok then remove_all true (arrange (fun p => p) (skipn (hk s2) hint) (map fst strays)) s2
+      else (false, s2).
 
   (* CleanAll: os.Remove on every file below the three directories (no hook
      there), then cleanUpFile on the two single files *)
@@ -342,14 +393,14 @@ Section Model.
     r_payload : list entry
   }.
 
-  Definition rollback (hint : list path) (bk : disk) (with_reload : bool) (s : st) : result * st :=
-    let '(ok1, s1) := restore hint bk s in
+  Definition rollback (sf : bool) (hint : list path) (bk : disk) (with_reload : bool) (s : st) : result * st :=
+    let '(ok1, s1) := restore sf hint bk s in
     if with_reload then
       let '(ok2, s2) := reload s1 in             (* runs whatever Restore returned *)
       (if ok1 && ok2 then Failed else RollbackFailed, s2)
     else (if ok1 then Failed else RollbackFailed, s1).
 
-  Definition update (fixed : bool) (hs hint : list path) (rq : request) (s : st) : result * st :=
+  Definition update (fixed sf : bool) (hs hint : list path) (rq : request) (s : st) : result * st :=
     if negb (r_method_ok rq) then (Failed, s) else          (* 405 (fix F-C08f: and return) *)
     if negb (r_body_ok rq) then (Failed, s) else            (* 400 *)
     let '(f0, s0) := prim false s in                        (* Backup: reads *)
@@ -364,19 +415,34 @@ Section Model.
       let '(oks, s2) := save_all fixed (plan fixed (skipn (hk s1) hs) (r_payload rq)) s1 in
       if oks then
         let '(okr, s3) := reload s2 in
-        if okr then (Ok, s3) else rollback hint bk true s3
-      else rollback hint bk false s2
-    else rollback hint bk false s1.
+        if okr then (Ok, s3) else rollback sf hint bk true s3
+      else rollback sf hint bk false s2
+    else rollback sf hint bk false s1.
 
   (* the gateway runs the engine built from the configuration on disk *)
   Definition init_state (d : disk) (f : fault) : st :=
-    {| dsk := d; eng := EBuilt d; flt := f; seen := []; hk := 0 |}.
+    {| dsk := d; eng := EBuilt d; flt := f; seen := []; hk := 0; ep := 0; eps := [] |}.
 
-  Definition run (fixed : bool) (hs hint : list path) (rq : request) (d : disk) (f : fault) : result * st :=
-    update fixed hs hint rq (init_state d f).
+  Definition run (fixed sf : bool) (hs hint : list path) (rq : request) (d : disk) (f : fault) : result * st :=
+    update fixed sf hs hint rq (init_state d f).
 
   (* every engine a transaction can have met, the final one included *)
   Definition arrivals (s : st) : list engine := eng s :: seen s.
+
+  (* A transaction that is proxied to the upstream has two phases: the gateway
+     handles its request when it arrives (lunar-on-request) and its response
+     when the upstream has answered (lunar-on-response).  Each phase reads
+     rd.getStream() on its own (routing/messages_handler.go processRequest /
+     processResponse): nothing ties the response phase to the engine that ran
+     the request phase.
+     [timeline]: what a phase arriving at each point of the run meets, in
+     chronological order: (number of publications so far, engine).
+     [transactions]: every (request-phase arrival, response-phase arrival)
+     with the response not before the request. *)
+  Definition epochs (s : st) : list nat := ep s :: eps s.
+  Definition timeline (s : st) : list (nat * engine) := rev (combine (epochs s) (arrivals s)).
+
+  Definition transactions (s : st) : list ((nat * engine) * (nat * engine)) := spans (timeline s).
 
   (* the configuration the payload describes: the files it names, applied in
      the order the fields are saved, to what the handler starts from *)
@@ -392,6 +458,18 @@ Section Model.
   Definition targets_covered (pl : list entry) : bool :=
     forallb (fun e => covered (target e)) pl.
 
+  (* the disk is a tree: no file lies below another file *)
+  Definition tree (d : disk) : Prop :=
+    forall p q, lookup p d <> None -> lookup q d <> None -> under p q = false.
+
+  (* a payload file whose name makes a file of a directory or a directory of a
+     file: its target lies below, or above, a file of the disk or another
+     target of the payload *)
+  Definition type_conflict (pl : list entry) (d : disk) : bool :=
+    existsb (fun e => existsb (fun q => negb (path_eqb (target e) q) &&
+                                        (under (target e) q || under q (target e)))
+                              (map fst d ++ map target pl)) pl.
+
 End Model.
 
 Arguments lookup {B}.
@@ -406,6 +484,11 @@ Arguments eng {B}.
 Arguments flt {B}.
 Arguments seen {B}.
 Arguments hk {B}.
+Arguments ep {B}.
+Arguments eps {B}.
+Arguments epochs {B}.
+Arguments timeline {B}.
+Arguments transactions {B}.
 Arguments e_field {B}.
 Arguments e_target {B}.
 Arguments e_content {B}.
@@ -420,6 +503,10 @@ Arguments targets_covered {B}.
 Arguments escapes {B}.
 Arguments names_escape {B}.
 Arguments base {B}.
+Arguments is_dir {B}.
+Arguments file_above {B}.
+Arguments tree {B}.
+Arguments type_conflict {B}.
 
 (* ---------------------------------------------------------------- correspondence *)
 
@@ -444,17 +531,22 @@ Definition case := (
   (list N * list N) *
   option nat *
   (list cpath * list cpath) *
-  (bool * list (cpath * N) * list (list (N * N))))%type.
+  (bool * list (cpath * N) * list (list (N * N))) *
+  list (bool * list (N * N) * list (N * N)) *
+  list (cpath * cpath))%type.
 
 Definition memN (x : N) (l : list N) : bool := existsb (N.eqb x) l.
 
 (* validation fails iff a file of the flows, quotas, path-params directories
-   or the gateway file has one of the listed contents *)
+   or the gateway file (the places the loader reads: [covered]) has one of the
+   listed contents *)
 Definition c_valid (bad : list N) (d : disk N) : bool :=
-  forallb (fun e => match fst (fst e) with
-                    | AFlows | AQuotas | APathParams | AGateway => negb (memN (snd e) bad)
-                    | _ => true
-                    end) (normalize d).
+  forallb (fun e => if covered (fst e) then
+                      match fst (fst e) with
+                      | AFlows | AQuotas | APathParams | AGateway => negb (memN (snd e) bad)
+                      | _ => true
+                      end
+                    else true) (normalize d).
 
 (* the metrics reload reads the user metrics file when it exists *)
 Definition c_metrics_ok (bad : list N) (d : disk N) : bool :=
@@ -509,8 +601,47 @@ Definition c_disk (l : list (cpath * N)) : disk N :=
 Definition result_code (r : result) : N :=
   match r with Ok => 0 | Failed => 1 | RollbackFailed => 2 end%N.
 
-Definition run_case (k : case) : option (N * disk N * list (list (N * N))) :=
-  let '(hd, before, payload, bads, fault, hints, obs) := k in
+(* two-phase transactions, as probes see them: was an engine published
+   between the request phase and the response phase, what served each phase *)
+Definition span_obs := (bool * list (N * N) * list (N * N))%type.
+
+Definition tview_eqb (a b : nat * list (N * N)) : bool :=
+  Nat.eqb (fst a) (fst b) && view_eqb (snd a) (snd b).
+
+Fixpoint tcompress (l : list (nat * list (N * N))) : list (nat * list (N * N)) :=
+  match l with
+  | [] => []
+  | v :: r =>
+      match tcompress r with
+      | [] => [v]
+      | w :: r' => if tview_eqb v w then w :: r' else v :: w :: r'
+      end
+  end.
+
+Definition span_obs_eqb (a b : span_obs) : bool :=
+  Bool.eqb (fst (fst a)) (fst (fst b)) && view_eqb (snd (fst a)) (snd (fst b)) && view_eqb (snd a) (snd b).
+
+Definition span_of (t : (nat * list (N * N)) * (nat * list (N * N))) : span_obs :=
+  (negb (Nat.eqb (fst (fst t)) (fst (snd t))), snd (fst t), snd (snd t)).
+
+(* every (request phase, response phase) pair the run allows *)
+Definition model_spans (s : st N) : list span_obs :=
+  map span_of (spans (tcompress (map (fun x => (fst x, view_of (snd x))) (timeline s)))).
+
+(* the transaction that spans the whole update *)
+Definition whole_span (s : st N) : list span_obs :=
+  match timeline s with
+  | [] => []
+  | x :: r => [span_of ((fst x, view_of (snd x)), (fst (last r x), view_of (snd (last r x))))]
+  end.
+
+(* the tree structure of the paths of a case, as the harness computed it from
+   the absolute paths: (p, q) is listed iff q lies below p *)
+Definition c_under (pairs : list (cpath * cpath)) (p q : path) : bool :=
+  existsb (fun x => path_eqb (path_of (fst x)) p && path_eqb (path_of (snd x)) q) pairs.
+
+Definition run_case (k : case) : option (N * disk N * list (list (N * N)) * list span_obs) :=
+  let '(hd, before, payload, bads, fault, hints, obs, obs_spans, pairs) := k in
   let '(hs, hint) := hints in
   let '(h, method_ok, body_ok) := hd in
   let '(bad, badm) := bads in
@@ -521,11 +652,16 @@ Definition run_case (k : case) : option (N * disk N * list (list (N * N))) :=
                                           {| e_field := field_of_N f; e_target := path_of t;
                                              e_content := c; e_decodable := dec |}) payload |} in
   let f := match fault with None => NoFault | Some n => AtHook n end in
-  let '(r, s) := run N N (fun c => c) N.eqb 0%N 0%N (c_valid bad) (c_metrics_ok badm)
-                     true (map path_of hs) (map path_of hint) rq (c_disk before) f in
+  let '(r, s) := run N N (fun c => c) N.eqb 0%N 0%N (c_under pairs) (c_valid bad) (c_metrics_ok badm)
+                     true true (map path_of hs) (map path_of hint) rq (c_disk before) f in
   let views := compress (map view_of (rev (arrivals s))) in
+  let mspans := model_spans s in
   if Bool.eqb obs_ok (match r with Ok => true | _ => false end)
      && disk_eqb (c_disk obs_after) (dsk s)
      && views_eqb obs_views views
+     (* every observed two-phase transaction is one the model allows, and the
+        one spanning the whole update was observed *)
+     && forallb (fun o => existsb (span_obs_eqb o) mspans) obs_spans
+     && forallb (fun w => existsb (span_obs_eqb w) obs_spans) (whole_span s)
   then None
-  else Some (result_code r, normalize (dsk s), views).
+  else Some (result_code r, normalize (dsk s), views, mspans).
